@@ -304,6 +304,14 @@ def iterate(it, v):
         return 'concrete', list(v)
     if isinstance(v, GenObj):
         raise Unsupported('iteration over un-run generator %r (declare it inline or as a stream)' % (v,))
+    if v.__class__.__name__ == 'ChainV':
+        out = []
+        for part in v.parts:
+            k, items = iterate(it, part)
+            if k != 'concrete':
+                raise Unsupported('itertools.chain over a symbolic part')
+            out.extend(items)
+        return 'concrete', out
     raise Unsupported('iterate %r' % (v,))
 
 
@@ -1117,6 +1125,9 @@ def setitem(it, obj, key, v):
 
 
 def delitem(it, obj, key):
+    if isinstance(obj, Opaque) and obj.kind in ('dictval', 'result', 'listelem', 'item'):
+        it.emit(Ev('Call', target=obj, method='__delitem__', args=(snap(it, key),), kwargs={}, result=None, objs=(key,)))
+        return
     if isinstance(obj, Row):
         k = term(key, StrS)
         if not it.branch(obj.dom[k]):
@@ -1972,6 +1983,17 @@ def yield_from(it, v):
     if isinstance(v, Opaque):
         it.emit(Ev('YieldFrom', src=v))
         return None
+    if isinstance(v, GenExp) and len(v.node.generators) == 1 and isinstance(v.node, ast.GeneratorExp):
+        # `yield from (elt for t in src if c)`  ==  `for t in src: if c: yield elt`
+        g = v.node.generators[0]
+        body = [ast.Expr(value=ast.Yield(value=v.node.elt))]
+        for c in reversed(g.ifs):
+            body = [ast.If(test=c, body=body, orelse=[])]
+        loop = ast.For(target=g.target, iter=g.iter, body=body, orelse=[], lineno=getattr(v.node, 'lineno', 0),
+                       col_offset=getattr(v.node, 'col_offset', 0))
+        ast.fix_missing_locations(loop)
+        it.exec(loop, Env(v.env))
+        return None
     kind, items = iterate(it, v)
     if kind == 'concrete':
         for x in items:
@@ -2146,6 +2168,10 @@ def _b_len(it, v):
         return wrap(n)
     if isinstance(v, Opaque):
         n = v.attrs.get('__len__')
+        if n is None and v.kind in ('dictval', 'result', 'listelem', 'item'):
+            t = it.fresh('len_' + v.kind, IntS)
+            it.assume(t >= 0)
+            n = v.attrs['__len__'] = SV(t)
         if n is not None:
             return n(it) if callable(n) else n
     raise Unsupported('len of %r' % (v,))
